@@ -62,6 +62,11 @@ def parse_period(tok: str):
     if form == "f":
         q = int(body)
         return ("f", q, q)
+    if form == "F":
+        # fine time unit: the float period `q * 2**-22` s (a fraction of a microsecond per tick) and every instant of the case in
+        # ticks of 2**-22 s - a period is a float number of seconds, not a whole number of microseconds
+        q = int(body)
+        return ("F", q, q)
     if form == "i":
         n = int(body)
         return ("i", n, 4 * n)
@@ -164,6 +169,7 @@ def run_real(case: str) -> str:
     if p is None:
         return "bad-case"
     bare, limit, (form, pargs), period, calls, events = p
+    tick = 2.0 ** -22 if form == "F" else TICK   # seconds per tick of this case
     clock = vloop.CLOCK
     loop = vloop.new_loop()   # also resets the clock to an integer instant
     try:
@@ -176,14 +182,14 @@ def run_real(case: str) -> str:
         done: dict[int, tuple[str, float]] = {}
 
         def ticks() -> float:
-            return (clock.now - t0) / TICK
+            return (clock.now - t0) / tick
 
         async def fn(i, *, key=None):
             order.append(i)
             starts.setdefault(i, ticks())
             argbits[i] = "1" if key is SENT_K else "0"
             if calls[i].dur:
-                await asyncio.sleep(calls[i].dur * TICK)
+                await asyncio.sleep(calls[i].dur * tick)
             if calls[i].out == "v":
                 return ("val", i)
             exc = (Boom if calls[i].out == "e" else BaseBoom)(i)
@@ -193,8 +199,8 @@ def run_real(case: str) -> str:
         if bare:
             wrapped = throttle(fn)
         else:
-            if form == "f":
-                per = pargs * TICK
+            if form in ("f", "F"):
+                per = pargs * tick
             elif form == "i":
                 per = pargs
             else:
@@ -216,7 +222,7 @@ def run_real(case: str) -> str:
         for ev in events:
             if ev[0] == "call":
                 i = ev[1]
-                when, mode = t0 + calls[i].t * TICK, calls[i].mode
+                when, mode = t0 + calls[i].t * tick, calls[i].mode
                 if mode == "a":
                     loop.advance_to(when)             # after everything due at this instant has happened
                 else:
@@ -228,9 +234,9 @@ def run_real(case: str) -> str:
             else:
                 _, i, t, before = ev
                 if before:
-                    advance_before(loop, t0 + t * TICK)
+                    advance_before(loop, t0 + t * tick)
                 else:
-                    loop.advance_to(t0 + t * TICK)
+                    loop.advance_to(t0 + t * tick)
                 tasks[i].cancel()
         loop.quiesce(advance=True)
 
@@ -429,6 +435,8 @@ def corpus():
         "1 f10 0:0:v 0:0:v 0:0:v",
         "2 f10 0:0:v 1:0:v 1:0:v 1:0:v",
         "1 t5 0:0:v 1:0:v",
+        # a float period is a number of seconds, not of microseconds: the same pattern in ticks of 2**-22 s
+        "1 F3 0:0:v 0:0:v 3:0:v", "1 F5 0:0:v 4:0:v 1:0:v", "2 F3 0:0:v 0:0:v 0:0:v 3:0:v 1:0:v",
         # an arrival at exactly the instant a waiting call's delay ends, scheduled BEFORE that sleeper wakes (:b) and
         # after it (:a) - a lock-free fast path lets the newcomer overtake and both start in one window
         "1 f4 0:0:v 2:0:v 2:0:v:b",
@@ -513,6 +521,7 @@ DURS = [0, 0, 0, 1, 2]
 OUTS = ["v", "v", "v", "e", "b"]
 # (token, ticks)
 PERIODS = [("f1", 1), ("f2", 2), ("f3", 3), ("f3", 3), ("f4", 4), ("f5", 5), ("f6", 6), ("f7", 7), ("f10", 10), ("f20", 20),
+           ("F1", 1), ("F3", 3), ("F5", 5), ("F6", 6),      # the same patterns in ticks of 2**-22 s (sub-microsecond periods)
            ("i1", 4), ("i1", 4), ("i2", 8), ("i3", 12),
            ("t1", 4), ("t2", 8), ("t0,0,250", 1), ("t0,0,500", 2), ("t0,0,750", 3), ("t0,0,1500", 6), ("t0,1,250", 5),
            ("t0,2,500", 10), ("t1,0,0", 345600), ("t1,0,500", 345602), ("t2,1,250", 691205), ("t0,86399,750", 345599)]
